@@ -292,7 +292,7 @@ func periodRun(r *simrt.Run, tier string, faulty bool) {
 	}
 	var lims []*limit.PeriodLimit
 	for i := 0; i < nLim; i++ {
-		rds := redis.New(fmt.Sprintf("p%d.%s", i, srv.Addr), redis.WithHook(srv.Hook()))
+		rds := redis.New(fmt.Sprintf("p%d.%s", i, srv.Addr), redis.WithHook(&guardHook{r: r, srv: srv}))
 		lims = append(lims, limit.NewPeriodLimit(w.period, w.quota, rds, prefix, opts...))
 	}
 	var keyNames []string
